@@ -11,8 +11,10 @@ Line-protocol driver for C06 (ledger conservation).
   code <addr> <script>                 install a contract
   tx op <src> <dataOk> <k> (<tgt> <amountHex>)*k
   tx ct <eth> <nonceOk> <jsonOk> <src> <tgt|-> <gasLimitHex> <valueHex> <nz> <z> <initId|-> <gasUsed>
-  tx lock <src> <n> <registryOk>
-  tx node <src> <registryOk>           OperatorNode transaction (type 7)
+  tx apply <src> <id> <typ> <stake> <account> <keysOk>     MinerApply (type 2)
+  tx add <src> <id> <delta>                                MinerAdd (type 5)
+  tx refund <src> <id> <amountHex> <signed>                MinerRefund (type 3)
+  tx node <src> <newAccount> <mainOk>                      OperatorNode (type 7)
   exec                                 run the queued transactions as one block
   refund <k> (<addr> <dec>)*k          RefundManager.CheckAndMove over that escrow list
   after <h> <k> (<h_i> <addr> <dec>)*k VMExecutor.after at height h: escrow += entries, then CheckAndMove(h)
@@ -20,7 +22,7 @@ Line-protocol driver for C06 (ledger conservation).
 
 script := "-" | action ("," action)*
 action := c:<addr>:<val> | cc:<addr>:<val> | dc:<addr> | sc:<addr> | cr:<val>:<id> | cr2:<val>:<id> | sd:<addr>
-        | ac:<addr>:<val> | rv | iv | st
+        | ac:<addr>:<val> | stk:<val> | ustk:<val> | usa | rv | iv | st
 -/
 namespace Rangers.Drive.C06
 open Rangers Rangers.Ledger
@@ -30,7 +32,7 @@ structure DS where
   univ : List Addr
   inits : List (Nat × Script)
   queue : List Tx          -- reversed
-  escrow : Escrow := []
+  height : Nat := 100
 
 def emptyWorld : World :=
   { st := { bal := [], dead := [], fresh := 0, burned := 0 }, code := [], ctx := { gasUsed := none } }
@@ -65,6 +67,9 @@ def action? (inits : List (Nat × Script)) (tok : String) : Option Action :=
   | ["cr2", v, id] => do let v ← nat? v; let id ← nat? id; let s ← lookupInit inits id; pure (.create v s)
   | ["sd", a] => do let a ← addr? a; pure (.suicide a)
   | ["ac", a, v] => do let a ← addr? a; let v ← nat? v; pure (.authcall a v)
+  | ["stk", v] => do let v ← nat? v; pure (.stake v)
+  | ["ustk", v] => do let v ← nat? v; pure (.unstake v)
+  | ["usa"] => some .unstakeAll
   | ["rv"] => some .revert
   | ["iv"] => some .invalid
   | ["st"] => some .stop
@@ -96,7 +101,6 @@ def amount? (s : String) : Option Amount := (str? s).map strToBigInt
 
 def showAmount : Amount → String
   | .err => "err"
-  | .outside => "unmodelled"
   | .val v => toString v
 
 def statusChar : Status → Char
@@ -106,10 +110,12 @@ def statusChar : Status → Char
 
 /-- A transaction that leaves the modelled amount domain makes the whole block `unmodelled`. -/
 def txOutside : Tx → Bool
-  | .operator _ _ ts => ts.any (fun p => p.2 == Amount.outside)
-  | .contract t => strToBigInt t.value == Amount.outside || t.nz + t.z ≥ 2 ^ 20
-  | .lock _ _ _ => false
-  | .node _ _ => false
+  | .operator _ _ _ => false
+  | .contract t => t.nz + t.z ≥ 2 ^ 20
+  | .apply _ _ _ _ _ _ => false
+  | .addStake _ _ _ => false
+  | .refund _ _ _ _ => false
+  | .node _ _ _ => false
 
 instance : BEq Amount := ⟨fun a b => decide (a = b)⟩
 
@@ -134,20 +140,46 @@ def parseTx (ds : DS) : List String → Option Tx
     let gu ← nat? gu
     pure (.contract { src := src, target := tgt, eth := eth, nonceOk := nok, jsonOk := jok, gasLimit := gl,
                       value := val, nz := nz, z := z, init := ini, gasUsed := gu })
-  | ["lock", src, n, ok] => do
+  | ["apply", src, id, typ, stake, acct, ok] => do
     let src ← addr? src
-    let n ← nat? n
+    let id ← nat? id
+    let typ ← nat? typ
+    let stake ← nat? stake
+    let acct ← addr? acct
     let ok ← bool? ok
-    if n ≥ 2 ^ 53 then none else pure (.lock src (stakeOf n) ok)
-  | ["node", src, ok] => do
+    if stake ≥ 2 ^ 53 then none else pure (.apply src id typ stake acct ok)
+  | ["add", src, id, delta] => do
     let src ← addr? src
+    let id ← nat? id
+    let delta ← nat? delta
+    if delta ≥ 2 ^ 53 then none else pure (.addStake src id delta)
+  | ["refund", src, id, amt, signed] => do
+    let src ← addr? src
+    let id ← nat? id
+    let amt ← str? amt
+    let signed ← bool? signed
+    -- strconv.ParseUint(amount, 10, 64)
+    let a : Option Nat :=
+      let cs := amt.toList
+      if cs.isEmpty || !cs.all isDigit then none
+      else if digitsVal cs ≤ uint64Max then some (digitsVal cs) else none
+    pure (.refund src id a signed)
+  | ["node", src, acct, ok] => do
+    let src ← addr? src
+    let acct ← addr? acct
     let ok ← bool? ok
-    pure (.node src ok)
+    pure (.node src acct ok)
   | _ => none
 
+def regStake : Reg → Nat
+  | [] => 0
+  | m :: r => m.stake + regStake r
+
+/-- T = sum of all balances, E = escrow total, S = whole tokens staked in the registry, then the universe -/
 def showState (ds : DS) : String :=
   let bs := ds.univ.map (fun a => toString (get ds.w.st.bal a))
-  "T=" ++ toString (total ds.w.st.bal) ++ " " ++ " ".intercalate bs
+  "T=" ++ toString (total ds.w.st.bal) ++ " E=" ++ toString (escrowTotal ds.w.st.escrow)
+    ++ " S=" ++ toString (regStake ds.w.st.reg) ++ " " ++ " ".intercalate bs
 
 def step (ds : DS) (line : String) : DS × String :=
   match splitWords line with
@@ -176,8 +208,8 @@ def step (ds : DS) (line : String) : DS × String :=
   | ["exec"] =>
     let txs := ds.queue.reverse
     if txs.any txOutside then ({ ds with queue := [] }, "unmodelled") else
-    let r := execBlock defaultFuel ds.w txs
-    let ds' := { ds with w := r.1, queue := [] }
+    let r := execBlock defaultFuel ds.w (ds.height + 1) txs []
+    let ds' := { ds with w := r.1, queue := [], height := ds.height + 1 }
     let sts := if r.2.isEmpty then "-" else String.ofList (r.2.map statusChar)
     (ds', sts ++ " " ++ showState ds')
   | "refund" :: k :: rest =>
@@ -191,9 +223,9 @@ def step (ds : DS) (line : String) : DS × String :=
     match nat? h, nat? k, triples? rest with
     | some h, some k, some ts =>
       if ts.length != k then (ds, "bad-op") else
-      let r := afterBlock ds.w.st.bal ds.escrow h ts
-      let ds' := { ds with w := { ds.w with st := { ds.w.st with bal := r.1 } }, escrow := r.2 }
-      (ds', "E=" ++ toString (escrowTotal r.2) ++ " " ++ showState ds')
+      let r := execBlock defaultFuel ds.w h [] ts
+      let ds' := { ds with w := r.1, height := h }
+      (ds', showState ds')
     | _, _, _ => (ds, "bad-op")
   | ["amt", h] =>
     match amount? h with
